@@ -22,6 +22,7 @@ TEig == Ev("Eig") /\ LET ev == Log[l] IN Judge(
           /\ ev.cls \in {"diagonal", "block", "random"}
           /\ ev.valret /\ ev.cnt /\ ev.valq <= 1 /\ ev.sumq <= 1                  \* the spectrum
           /\ ev.sysret /\ ev.syscnt                                              \* Eigensystem terminates and returns n pairs
+          /\ ev.sysvalq <= 1                                                      \* one pair for each eigenvalue of the spectrum
           /\ ev.normq <= 1 /\ ev.resq <= 1 /\ ev.parq <= 1)                       \* unit vectors, M v = lambda v, parallel to the planted vectors
 Next == TQR \/ TEig
 Spec == Init /\ [][Next]_l
